@@ -32,4 +32,50 @@ __CPROVER_requires(SHORT7(str1))
 __CPROVER_assigns()
 __CPROVER_ensures((__CPROVER_return_value == 0) == STREQ8(str1, str2))
 ;
+
+#ifdef VERIF_TU_JWT_MEMORY
+/* ---- the allocator entry points (C17: the application allocator installed through
+ * jwt_set_alloc is what libjwt AND jansson use; jwt_malloc is NULL-or-fresh) ---- */
+#include <jwt.h>
+static jwt_malloc_t pfn_malloc;	/* tentative definitions; the real ones are in jwt-memory.c */
+static jwt_free_t pfn_free;
+extern void *(*g_json_malloc_fn)(size_t); extern void (*g_json_free_fn)(void *);	/* ghost: what jansson was told (stubs/memory_env.c) */
+/* what an application allocator may do: fail, or return a fresh object of the size asked */
+void *contract_user_malloc(size_t size)
+__CPROVER_assigns()
+__CPROVER_ensures(__CPROVER_return_value == NULL || __CPROVER_is_fresh(__CPROVER_return_value, size))
+;
+void contract_user_free(void *ptr)
+__CPROVER_requires(ptr == NULL || __CPROVER_is_freeable(ptr))	/* a pointer obtained from the allocator, not yet released */
+__CPROVER_assigns()
+__CPROVER_frees(ptr)
+;
+#define MEM_TAKE_ADDRESSES do { void *volatile p1 = (void *)contract_user_malloc, *volatile p2 = (void *)contract_user_free; (void)p1; (void)p2; } while (0)
+void *contract_C17_jwt_malloc(size_t size)
+__CPROVER_requires(pfn_malloc == NULL || __CPROVER_obeys_contract(pfn_malloc, contract_user_malloc))
+__CPROVER_assigns()
+__CPROVER_ensures(__CPROVER_return_value == NULL || __CPROVER_is_fresh(__CPROVER_return_value, size))
+;
+void contract_C17___jwt_freemem(void *ptr)
+__CPROVER_requires(pfn_free == NULL || __CPROVER_obeys_contract(pfn_free, contract_user_free))
+__CPROVER_requires(ptr == NULL || __CPROVER_is_fresh(ptr, 1))	/* a pointer obtained from the allocator, not yet released */
+__CPROVER_assigns()
+/* releases at most the object handed in, through the installed free function or free() */
+__CPROVER_frees(ptr)
+__CPROVER_ensures(1 == 1)
+;
+int contract_C17_jwt_set_alloc(jwt_malloc_t pmalloc, jwt_free_t pfree)
+__CPROVER_assigns(pfn_malloc, pfn_free, g_json_malloc_fn, g_json_free_fn)
+__CPROVER_ensures(__CPROVER_return_value == 0 && pfn_malloc == pmalloc && pfn_free == pfree)
+/* jansson is pointed at libjwt's own entry points, so it follows every later change too */
+__CPROVER_ensures(g_json_malloc_fn == jwt_malloc && g_json_free_fn == __jwt_freemem)
+;
+void contract_C17_jwt_get_alloc(jwt_malloc_t *pmalloc, jwt_free_t *pfree)
+__CPROVER_requires(pmalloc == NULL || __CPROVER_is_fresh(pmalloc, sizeof(*pmalloc)))
+__CPROVER_requires(pfree == NULL || __CPROVER_is_fresh(pfree, sizeof(*pfree)))
+__CPROVER_assigns(pmalloc != NULL: *pmalloc; pfree != NULL: *pfree)
+__CPROVER_ensures(pmalloc == NULL || *pmalloc == pfn_malloc)
+__CPROVER_ensures(pfree == NULL || *pfree == pfn_free)
+;
+#endif
 #endif
